@@ -176,9 +176,22 @@ let bump k = Hashtbl.replace hist k (1 + try Hashtbl.find hist k with Not_found 
 
 let n_pfail = ref 0
 let n_disagree = ref 0
-let pfail obs clause detail =
+let clause_count : (string, int) Hashtbl.t = Hashtbl.create 8
+let pf_lines : (string * string) list ref = ref []
+(* one PFAIL line per case, naming every failed clause; the first few failures of EVERY clause are printed *)
+let pfail obs (fails : (string * string) list) =
   incr n_pfail; incr n_mismatch;
-  if !n_pfail <= 20 then Printf.printf "PFAIL %s || clause=%s %s\n" obs clause detail
+  let fresh = ref false in
+  List.iter (fun (c, _) ->
+      let n = 1 + (try Hashtbl.find clause_count c with Not_found -> 0) in
+      Hashtbl.replace clause_count c n;
+      if n <= 6 then fresh := true) fails;
+  if !fresh then
+    pf_lines :=
+      (String.concat "+" (List.map fst fails),
+       Printf.sprintf "PFAIL %s || clause=%s %s" obs (String.concat "+" (List.map fst fails))
+         (String.concat " ;; " (List.map (fun (c, d) -> c ^ ": " ^ d) fails)))
+      :: !pf_lines
 let disagree obs detail =
   incr n_disagree; incr n_mismatch;
   if !n_disagree <= 20 then Printf.printf "DISAGREE %s || model=%s\n" obs detail
@@ -231,8 +244,8 @@ let finish_block () =
       incr n_class;
       if not (in_class defs) then
         failwith (Printf.sprintf "generator produced a file outside the compile class: file=%d variant=%d" fileno variant);
-      let failed = ref false in
-      let pf clause detail = failed := true; pfail obs clause detail in
+      let fails = ref [] in
+      let pf clause detail = fails := (clause, detail) :: !fails in
       (* P1: canonical order *)
       if not (canonicalb impl_db) then pf "canonical" "nodes by name, messages by id, signals by (start, mux), value descriptions by value";
       (* P2: denotes (decided as in CompileProofs.denotes_check_sound) *)
@@ -259,7 +272,8 @@ let finish_block () =
          | _ -> ());
         if !ref_warn <> stable then pf "compile_perm_warnings" "warnings differ from the original order as a multiset"
       end;
-      if (not !failed) && not (agree_db && agree_warn) then
+      if !fails <> [] then pfail obs (List.rev !fails)
+      else if not (agree_db && agree_warn) then
         disagree obs
           (if not agree_db then "database: first difference (model / implementation): " ^ diff_db model_db impl_db
            else Printf.sprintf "warnings: model [%s] implementation [%s]" (show_warnings model_warn)
@@ -288,10 +302,19 @@ let () =
        if l <> "" then handle l
      done
    with End_of_file -> ());
+  (* PFAIL lines: one representative of every distinct set of failed clauses first (check.py turns
+     the first five into replays), then the others *)
+  let all = List.rev !pf_lines in
+  let seen = Hashtbl.create 8 in
+  let firsts, rest = List.partition (fun (cs, _) -> if Hashtbl.mem seen cs then false else (Hashtbl.replace seen cs (); true)) all in
+  let firsts = List.stable_sort (fun (a, _) (b, _) -> compare (String.length b) (String.length a)) firsts in
+  List.iter (fun (_, l) -> print_endline l) (firsts @ rest);
   let ks = Hashtbl.fold (fun k v acc -> Printf.sprintf "\"%s\":%d" (json_escape k) v :: acc) kinds [] in
   let hs = Hashtbl.fold (fun k v acc -> Printf.sprintf "\"%s\":%d" (json_escape k) v :: acc) hist [] in
   let ss = List.map (fun s -> "\"" ^ json_escape s ^ "\"") (List.rev !samples) in
   Printf.printf
-    "STATS {\"cases\":%d,\"mismatches\":%d,\"distinct_nontrivial\":%d,\"kinds\":{%s},\"samples\":[%s],\"class_cases\":%d,\"permuted_orders_compared\":%d,\"cases_with_warnings\":%d,\"warnings_total\":%d,\"predicate_failures\":%d,\"disagreements\":%d,\"histogram\":{%s}}\n"
+    "STATS {\"cases\":%d,\"mismatches\":%d,\"distinct_nontrivial\":%d,\"kinds\":{%s},\"samples\":[%s],\"class_cases\":%d,\"permuted_orders_compared\":%d,\"cases_with_warnings\":%d,\"warnings_total\":%d,\"predicate_failures\":%d,\"disagreements\":%d,\"failed_clauses\":{%s},\"histogram\":{%s}}\n"
     !n_cases !n_mismatch !n_nontrivial (String.concat "," (List.sort compare ks)) (String.concat "," ss)
-    !n_class !n_perm_compared !n_warn_cases !n_warnings !n_pfail !n_disagree (String.concat "," (List.sort compare hs))
+    !n_class !n_perm_compared !n_warn_cases !n_warnings !n_pfail !n_disagree
+    (String.concat "," (Hashtbl.fold (fun k v acc -> Printf.sprintf "\"%s\":%d" (json_escape k) v :: acc) clause_count []))
+    (String.concat "," (List.sort compare hs))
